@@ -224,10 +224,11 @@ func Generate(r *rand.Rand, cfg GenCfg, rec *Recorder) *Scenario {
 		ep.Byz = 3*cw >= total
 		pv := buildVals(vals)
 		var nextVals []ValW
+		curJump, curN := 0, 0 // frames the event being processed by the generator instance passes at once; its index
 		nbBeforeCall := -1 // number of blocks of the generator instance before its current Process call (-1: not generating)
 		seal := func(e idx.Epoch, f idx.Frame) *pos.Validators {
 			if e == ep.Epoch && cfg.SealAtCascade && ep.SealFrame == 0 && nbBeforeCall >= 0 && gen != nil &&
-				len(gen.Blocks)-nbBeforeCall >= 1 && f >= 2 && epi < cfg.Epochs-1 {
+				len(gen.Blocks)-nbBeforeCall >= 1 && f >= 2 && epi < cfg.Epochs-1 && (curJump >= 2 || curN > 2*cfg.EpochEvents/3) {
 				ep.SealFrame = f // from now on the rule is "seal at frame f" for every instance
 			}
 			if e == ep.Epoch && ep.SealFrame != 0 && f == ep.SealFrame {
@@ -453,6 +454,11 @@ func Generate(r *rand.Rand, cfg GenCfg, rec *Recorder) *Scenario {
 			s.finalize(ev)
 			nb := len(gen.Blocks)
 			nbBeforeCall = nb
+			curN = n
+			curJump = 0
+			if sp != nil {
+				curJump = int(ev.Frame) - int(sp.Frame)
+			}
 			err, critical = guarded(func() error { return gen.L.Process(te) })
 			nbBeforeCall = -1
 			if critical {
